@@ -1155,6 +1155,11 @@ def defunctionalise(tree):
                     gen = ast.GeneratorExp(elt=ast.Call(func=a[0], args=[ast.Name(id=nm, ctx=ast.Load()) for nm in names], keywords=[]), generators=[ast.comprehension(target=tgt, iter=a[1], ifs=[], is_async=0)])
                 else:
                     gen = ast.GeneratorExp(elt=ast.Call(func=a[0], args=[ast.Starred(value=ast.Name(id=v, ctx=ast.Load()), ctx=ast.Load())], keywords=[]), generators=[ast.comprehension(target=ast.Name(id=v, ctx=ast.Store()), iter=a[1], ifs=[], is_async=0)])
+            elif isinstance(node.func, ast.Attribute) and node.func.attr in ("call_soon_threadsafe", "call_soon", "start_soon") and a and isinstance(a[0], ast.Call) and _qual(a[0].func, imp, shadowed) == "functools.partial" and a[0].args and not a[0].keywords and not any(isinstance(x, ast.Starred) for x in a[0].args):
+                # loop.call_soon_threadsafe(partial(f, x))  ->  loop.call_soon_threadsafe(f, x): the same callback, the same arguments
+                node.args = list(a[0].args) + list(a[1:])
+                stats[0] += 1
+                return node
             else:
                 # a call of a known spelling with plain arguments:  attrgetter("a")(x), partial(g, a)(x), operator.eq(a, b)
                 r = apply_fn(node.func, list(a), node) if isinstance(node.func, (ast.Call, ast.Lambda)) or (_qual(node.func, imp, shadowed) or "").startswith("operator.") else None
